@@ -40,7 +40,10 @@ TOOLS = ("dadd", "dconv", "ddiff", "dgrep", "dround", "dseq", "dsort", "dtest",
          "dzone")
 
 GUARD = "-DDATEUTILS_VERIF"
-SAN = "-O1 -g -fno-omit-frame-pointer -fsanitize=address -Wno-unknown-warning-option"
+# ASan plus the arithmetic part of UBSan (a wrapped product or a shift by the width is as silent as a
+# stray write); -fsanitize=bounds stays off: lib/ummulqura.c reads _bom[y][12] on purpose
+SAN = ("-O1 -g -fno-omit-frame-pointer -fsanitize=address,signed-integer-overflow,shift-exponent,integer-divide-by-zero "
+       "-fno-sanitize-recover=signed-integer-overflow,shift-exponent,integer-divide-by-zero -Wno-unknown-warning-option")
 FLAVOURS = {
     # name: (CC, CFLAGS)
     "san": ("clang", SAN + " " + GUARD),
